@@ -321,6 +321,12 @@ StepResult(s0, r) ==
                            THEN Rej("C06", r, "messages sent in response differ",
                                     [action |-> a.a, integ |-> a.integ, sq |-> a.sq, st |-> x0.st, expected |-> BriefSeq(exp), got |-> BriefSeq(r.outs)])
                            ELSE TRUE)
+                       \* "a session that sent the Logout itself does not send a second one" (C15) - whatever made it do so (also a
+                       \* retransmission of its own Logout while the answer is awaited)
+                       /\ (IF x0.st = "WLO" /\ Len(SelectSeq(r.outs, LAMBDA o : o.ty = "5")) > Len(SelectSeq(exp, LAMBDA o : o.ty = "5")) /\ tag # "C15"
+                           THEN Rej("C15", r, "messages sent in response differ",
+                                    [action |-> a.a, integ |-> a.integ, sq |-> a.sq, st |-> x0.st, expected |-> BriefSeq(exp), got |-> BriefSeq(r.outs)])
+                           ELSE TRUE)
                        \* "valid messages that follow are processed normally" (C16): a valid ResendRequest whose range holds the
                        \* Reject of an earlier invalid message is answered with what was sent under those numbers, the Reject included
                        /\ (IF a.a = "resend" /\ tag = "C10" /\ (\E j \in 1..Len(exp) : exp[j].ty = "3")
